@@ -268,6 +268,7 @@ func zzC18cWriteLoop() {
 	if !exhausted {
 		e2 = t.Write(m2)
 		vf.Assert("writes-succeed-across-redial", e1 == nil && e2 == nil)
+		vf.Settle() // let the read loop see the closed first connection: it must not redial again
 		vf.Assert("redialled-once", d.dials == 2 && len(d.made) == 2)
 		if len(d.made) == 2 {
 			second := d.made[1].wrote()
